@@ -134,6 +134,8 @@ func vfPrevOK(q *PriorityQueue) bool {
 	return true
 }
 
+var errVfJBInjected = errors.New("injected read failure") //nolint:gochecknoglobals
+
 func vfJBEvent(st vfJBStep) vfM {
 	return vfM{
 		"a": st.A, "n": st.N, "ts": st.Ts, "b": st.B, "id": 0, "res": 0, "err": "", "ok": true,
@@ -281,8 +283,13 @@ func vfRunJBIcpt(t *testing.T, sc *vfJBScript, out *vfWriter) {
 	out.Emit(vfM{"a": "reset", "level": "icpt", "min": ri.buffer.minStartCount})
 	info := &interceptor.StreamInfo{SSRC: 0x1234, ClockRate: 90000}
 	var next []byte
+	failRead := false
 	reader := ic.BindRemoteStream(info, interceptor.RTPReaderFunc(
 		func(b []byte, a interceptor.Attributes) (int, interceptor.Attributes, error) {
+			if failRead {
+				return copy(b, next), a, errVfJBInjected // (the bytes are there all the same)
+			}
+
 			return copy(b, next), a, nil
 		}))
 	sent := map[int][]byte{}
@@ -290,6 +297,18 @@ func vfRunJBIcpt(t *testing.T, sc *vfJBScript, out *vfWriter) {
 	for _, st := range sc.Steps {
 		ev := vfJBEvent(st)
 		switch st.A {
+		case "readfail": // the wrapped reader fails: the error is passed up and nothing is buffered (no event: the NEXT one shows)
+			fp := rtp.Packet{Header: rtp.Header{Version: 2, SequenceNumber: st.N, Timestamp: sc.TsBase + st.Ts, SSRC: 0x1234},
+				Payload: []byte{0, 0, 0, 0, 1, 2, 3, 4}}
+			next, _ = fp.Marshal()
+			failRead = true
+			_, _, rerr := reader.Read(make([]byte, len(next)), interceptor.Attributes{})
+			failRead = false
+			if !errors.Is(rerr, errVfJBInjected) {
+				t.Fatalf("VERIF-INFRA the failure of the wrapped reader was not passed up: %v", rerr)
+			}
+
+			continue
 		case "read":
 			nid++
 			pl := make([]byte, 8)
